@@ -6,7 +6,7 @@
      Clean k                                    (kernel cleaner: one process_ccq_entry callback)
    cf = (timeouts, which handleNATEntries: pinned or repaired).  The kernel steps Clean/Packet are hand models of C code. *)
 From Coq Require Import List NArith ZArith Bool.
-From Verif.C14 Require Import Model Spec Proofs Safety SafetyCor Liveness LivenessGen FullScan Witness.
+From Verif.C14 Require Import Model Spec Proofs Safety SafetyCor Liveness LivenessGen FullScan MeetsSpec Witness.
 Import ListNotations.
 Open Scope Z_scope.
 
@@ -209,6 +209,24 @@ Theorem c14_shared_reverse_needs_two_rounds : forall cf, cf = pinned \/ cf = rep
   map fst (ct s1) = [kF; kF2] /\ ct s2 = [].
 Proof. exact shared_reverse_two_rounds. Qed.
 Print Assumptions c14_shared_reverse_needs_two_rounds.
+
+(* MODEL MEETS SPEC, soundness half of the oracle.  Spec.ok_segs (the oracle evaluated on the REAL scanner's queues by the
+   correspondence run) is the conjunction of a soundness half and a completeness half (ok_segs_halves).  For every
+   start state between two scans, every clock and every list of scans made of clock ticks, packets, dataplane rewrites
+   and evictions (never the all-zero key; forward entries never point at a protocol-0 key) and scanner callbacks (each
+   key visited at most once per scan), the queues the model with the repaired handleNATEntries hands to the cleaner
+   pass the soundness half: every queue entry is backed by a judgement the property allows. *)
+Theorem c14_oracle_halves : forall t segs en sy obs,
+  ok_segs t en sy segs obs = sound_segs t en segs obs && complete_segs t en sy segs obs.
+Proof. exact ok_segs_halves. Qed.
+Print Assumptions c14_oracle_halves.
+
+Theorem c14_model_meets_spec_sound : forall t segs s,
+  Start s ->
+  Forall (fun seg => Forall seg_step seg /\ NoDup (judged seg)) segs ->
+  sound_segs t (ct s, kclock s) segs (run_segs (mkConf t true) s segs) = true.
+Proof. exact model_meets_spec_sound. Qed.
+Print Assumptions c14_model_meets_spec_sound.
 
 (* the judged idle time only grows with the clock (so a stale cached kernel time errs on the side of keeping) *)
 Theorem c14_expired_monotone : forall t now now' p e,
